@@ -11,4 +11,5 @@ INVARIANT KF_D3_Swap
 INVARIANT Ref_TwinOutcome
 INVARIANT Ref_FnOutcome
 INVARIANT Ref_CurveOutcome
+INVARIANT Ref_ExtractIsSpec
 CHECK_DEADLOCK FALSE
